@@ -162,6 +162,20 @@ Added for `Linear.membership` / `Aggregated.highest_activated_term` (profiles `d
 elements of a list literal may raise (evaluated left to right); a function whose return type `ret` is itself an
 optional (`Activated | None`) stores `some <the optional>` in the field `ret` (`none` = no `return` was executed).
 
+Constructs added for the getters / look-ups of `Engine` and the range of `Variable` (profiles `engineio.py`):
+
+* a generator expression that is consumed completely where it is written - the only argument of `tuple(...)` /
+  `list(...)`, or a starred argument `f(*(e for x in l))` - is the list of its elements, like a list comprehension (one
+  generator, pure element; any other generator expression stays outside the subset); `tuple(l)` / `list(l)` of a list is
+  that list (the translated values are immutable);
+* `try: return e` / `try: x = e` with the handler `except:` / `except Exception:` / `except BaseException:` (without
+  `raise_state`): the handler runs for every Python exception of `e` (`Py.Err.isPython`; the translator's own `.fuel` /
+  `.alias` pass through); `try: return e` stores the value in `ret` and leaves the function when `e` does not raise;
+* `return e` inside a `for` / `while` body leaves the function: the loop ends like a `break` with the value in `ret`, and
+  what follows the loop (also the rest of an enclosing loop body) runs only when `ret` is still `None`;
+* a tuple of two pure expressions `a, b` is the pair `(a, b) : A × B`; `p[0]` / `p[1]` of a pair are its components; a
+  tuple assignment `t1, t2 = p` from a pure pair that mentions neither target is `t1 = p[0]; t2 = p[1]`.
+
 Anything outside the subset raises `Untranslatable` - the tie is then reported as broken (never silently skipped).
 """
 from __future__ import annotations
@@ -345,6 +359,14 @@ class Fn:
             self.locals[x] = "Py.Alias"
             self.check_alias(x, lst)
         self.check_none_init()
+        # generator expressions that are consumed completely where they are written (see the module docstring)
+        self.genexp_ok = set()
+        for n in ast.walk(self.fdef):
+            if (isinstance(n, ast.Call) and isinstance(n.func, ast.Name) and n.func.id in ("tuple", "list") and len(n.args) == 1
+                    and not n.keywords and isinstance(n.args[0], ast.GeneratorExp)):
+                self.genexp_ok.add(id(n.args[0]))
+            if isinstance(n, ast.Starred) and isinstance(n.value, ast.GeneratorExp):
+                self.genexp_ok.add(id(n.value))
         self.rs = bool(profile.get("raise_state"))
         if self.rs and (profile.get("alias_last") or profile.get("self_call")):
             raise Untranslatable("raise_state cannot be combined with alias_last / self_call")
@@ -812,7 +834,10 @@ class Fn:
                     body = f"({x.m()} >>= fun {nm} => {body})"
                 return E(body, f"List {paren(es[0].ty)}", False)
             return E("[" + ", ".join(x.term for x in es) + "]", f"List {paren(es[0].ty)}")
-        if isinstance(node, ast.ListComp):
+        if (isinstance(node, ast.Call) and isinstance(node.func, ast.Name) and node.func.id in ("tuple", "list") and len(node.args) == 1
+                and not node.keywords and (isinstance(node.args[0], (ast.GeneratorExp, ast.ListComp)) or self._is_list(node.args[0]))):
+            return self.ce(node.args[0])          # the sequence of a list / of a completely consumed generator expression
+        if isinstance(node, ast.ListComp) or (isinstance(node, ast.GeneratorExp) and id(node) in self.genexp_ok):
             g = node.generators[0]
             if len(node.generators) != 1 or g.is_async or not isinstance(g.target, ast.Name):
                 raise Untranslatable(f"comprehension shape: {ast.unparse(node)}")
@@ -885,6 +910,24 @@ class Fn:
                 parts.append(e.term)
             return E("(" + " ++ ".join(parts) + ")" if parts else '""', "String")
         raise Untranslatable(f"expression {ast.unparse(node)}")
+
+    def _pure_pair(self, node):
+        try:
+            self.const_of(node)
+            return False                       # a translation-time constant: the older rule below
+        except (KeyError, Untranslatable):
+            pass
+        try:
+            e = self.ce(node)
+        except Untranslatable:
+            return False
+        return e.pure and split_prod(e.ty) is not None
+
+    def _is_list(self, node):
+        try:
+            return self.ce(node).ty.startswith("List ")
+        except Untranslatable:
+            return False
 
     def iterator(self, node):
         if isinstance(node, ast.Call) and isinstance(node.func, ast.Name) and len(node.args) == 1 and self.try_external(node) is None:
@@ -1039,6 +1082,14 @@ class Fn:
                 if any(isinstance(n, ast.Name) and n.id in names for n in ast.walk(v)):
                     raise Untranslatable(f"tuple assignment that reads its targets: {ast.unparse(s)}")
                 seqd = [ast.Assign(targets=[e], value=x) for e, x in zip(t.elts, v.elts)]
+                return self.cs(seqd + list(rest), k, loopk, brk)
+            if isinstance(t, ast.Tuple) and len(t.elts) == 2 and not isinstance(s.value, ast.Tuple) and self._pure_pair(s.value):
+                # `t1, t2 = p` for a pure pair `p` that mentions neither target: `t1 = p[0]; t2 = p[1]`
+                tnames = {ast.unparse(e) for e in t.elts}
+                if any(ast.unparse(n) in tnames for n in ast.walk(s.value) if isinstance(n, (ast.Name, ast.Attribute))):
+                    raise Untranslatable(f"tuple assignment that reads its targets: {ast.unparse(s)}")
+                seqd = [ast.Assign(targets=[e], value=ast.Subscript(value=s.value, slice=ast.Constant(value=i), ctx=ast.Load()))
+                        for i, e in enumerate(t.elts)]
                 return self.cs(seqd + list(rest), k, loopk, brk)
             if isinstance(t, ast.Tuple):
                 try:
@@ -1295,18 +1346,26 @@ class Fn:
                 raise Untranslatable("try statement shape")
             h = s.handlers[0]
             nm = h.type.id if isinstance(h.type, ast.Name) else None
-            if nm not in ERR or h.name:
+            catch_all = (h.type is None or nm in ("Exception", "BaseException")) and not h.name
+            if (nm not in ERR or h.name) and not catch_all:
                 raise Untranslatable("except clause")
             b = s.body[0]
-            if not (isinstance(b, ast.Assign) and len(b.targets) == 1 and isinstance(b.targets[0], ast.Name)):
+            is_ret = isinstance(b, ast.Return) and b.value is not None and catch_all
+            if not is_ret and not (isinstance(b, ast.Assign) and len(b.targets) == 1 and isinstance(b.targets[0], ast.Name)):
                 raise Untranslatable("try body must be a single assignment")
             e = self.ce(b.value)
             if e.pure:
                 return self.cs([b] + list(rest), k, loopk, brk)
 
             def mk(kn):
-                okc = f"{self._let(b.targets[0].id, E('v', e.ty))}\n{kn} σ"
+                if is_ret:
+                    okc = self.set_field("ret", E("v", e.ty), "Except.ok")
+                else:
+                    okc = f"{self._let(b.targets[0].id, E('v', e.ty))}\n{kn} σ"
                 hc = self.cs(h.body, kn, loopk, brk)
+                if catch_all:
+                    return (f"match {e.term} with\n| .ok v =>\n{ind(okc)}\n| .error err =>\n  if Py.Err.isPython err then\n{ind(hc, 4)}\n"
+                            f"  else .error err")
                 return f"match {e.term} with\n| .ok v =>\n{ind(okc)}\n| .error .{ERR[nm]} =>\n{ind(hc)}\n| .error err => .error err"
             return seq(mk)
         if isinstance(s, ast.For):
@@ -1360,10 +1419,10 @@ class Fn:
                 self.loop_depth -= 1
             self.aux.append(f"def {ln} : List {paren(ety)} → {self.name}.S → {self.mty()}\n  | [], σ => .ok σ\n  | {xv} :: rest, σ =>\n{ind(tgt_assign, 4)}\n{ind(body, 4)}")
             if arr is not None:
-                return f"{ln} σ.{arr} {{ σ with {arr} := [] }} >>= fun σ =>\n{after()}"
+                return f"{ln} σ.{arr} {{ σ with {arr} := [] }} >>= fun σ =>\n{self.after_loop(s, after)}"
             if it.pure:
-                return f"{ln} {paren(it.term)} σ >>= fun σ =>\n{after()}"
-            return f"{self.lift(it.term)} >>= fun l => {ln} l σ >>= fun σ =>\n{after()}"
+                return f"{ln} {paren(it.term)} σ >>= fun σ =>\n{self.after_loop(s, after)}"
+            return f"{self.lift(it.term)} >>= fun l => {ln} l σ >>= fun σ =>\n{self.after_loop(s, after)}"
         if isinstance(s, ast.While):
             if s.orelse:
                 raise Untranslatable("while-else")
@@ -1384,7 +1443,7 @@ class Fn:
                 step = f"{self.lift(c.term)} >>= fun c =>\nif c then\n{ind(body)}\nelse .ok σ"
             fuel0 = "| 0, σ => .error (.fuel, σ)" if self.rs else "| 0, _ => .error .fuel"
             self.aux.append(f"def {ln} : Nat → {self.name}.S → {self.mty()}\n  {fuel0}\n  | fuel + 1, σ =>\n{ind(step, 4)}")
-            return f"{ln} ({fuel}) σ >>= fun σ =>\n{after()}"
+            return f"{ln} ({fuel}) σ >>= fun σ =>\n{self.after_loop(s, after)}"
         raise Untranslatable(f"statement {type(s).__name__}: {ast.unparse(s)[:60]}")
 
     def unpack_list(self, t, value, after):
@@ -1409,6 +1468,16 @@ class Fn:
         upd = ", ".join(f"{n} := {u}" for n, u in zip(names, vs))
         return (f"{self.lift(v.m())} >>= fun v =>\nmatch v with\n| [{', '.join(vs)}] =>\n  let σ := {{ σ with {upd} }}\n{ind(after(), 2)}\n"
                 f"| _ => {self.err('value')}")
+
+    def after_loop(self, loop, after):
+        """what follows a loop: a `return e` inside the body has stored its value in `ret` and left the loop like a `break`;
+        the statements after the loop must not run then (`ret` is set by `return` statements only)"""
+        rets = [n for b in loop.body for n in ast.walk(b) if isinstance(n, ast.Return)]
+        if not rets:
+            return after()
+        if any(r.value is None for r in rets) or not self.ret_ty:
+            raise Untranslatable("`return` without a value inside a loop")
+        return f"if σ.ret.isSome then .ok σ else\n{after()}"
 
     def store_index(self, t, e, after):
         """`l[i] = e` on a list local: `e`, then `i`, then the update (IndexError out of range)"""
@@ -1629,6 +1698,27 @@ class Fn:
                 main = re.sub(re.escape(ln) + r"(?!\d)", f"{ln} {pnames}", main)
                 text = re.sub(r"(?<!def )" + re.escape(ln) + r"(?!\d)", f"{ln} {pnames}", text)
         return text + main
+
+
+def split_prod(t):
+    """the two components of a Lean pair type `A × B` (top level), or None"""
+    d = 0
+    for i, ch in enumerate(t):
+        if ch in "([":
+            d += 1
+        elif ch in ")]":
+            d -= 1
+        elif ch == "×" and d == 0:
+            a, b = t[:i].strip(), t[i + 1:].strip()
+            if "×" in b and split_prod(b) is not None:
+                return None                    # a triple: not handled
+            strip = lambda x: x[1:-1] if x.startswith("(") and x.endswith(")") and balanced(x[1:-1]) else x  # noqa: E731
+            return strip(a), strip(b)
+    return None
+
+
+def prod_arg(t):
+    return t if re.fullmatch(r"[\w.]+( [\w.]+)*", t) and "×" not in t else paren(t)
 
 
 def is_yield_try(s):
